@@ -51,4 +51,10 @@ mask is used unchanged, and the complex axis is asserted -/
 theorem apply_mask_plan_eq : apply_mask_plan = (1, true, true, true) := by decide
 theorem apply_mask_shape_slice_eq : apply_mask_shape_slice = (1, none) := by decide
 
+/-- `ApplyMaskModule.forward` has no return and no other logic before its unconditional
+`T.apply_mask(sample[input_kspace_key], sample[sampling_mask_key])` call besides the two key
+guards, and stores the result under the target key — i.e. it is `Mask.applyMaskModule`, a function
+of (input, mask) only (`apply_mask_module_ignores_existing_target`). -/
+theorem apply_mask_module_plan_eq : apply_mask_module_plan = (0, 0, true, true, true, true) := by decide
+
 end DirectVerif.Bridge.C03
